@@ -42,8 +42,8 @@ def obligations(tier):
         o.append(dec('delta-length', 7, L, DELTA + ['src/encoding/delta_length.c'], ['-DCAP=3'], 'declared count 0..3 symbolic', timeout=600))
         o.append(dec('delta-strings', 8, L, DELTA + ['src/encoding/delta_length.c', 'src/encoding/delta_strings.c'], ['-DCAP=3'], 'declared count 0..3, work buffer 0..8 symbolic', timeout=600))
     for dt, nm in enumerate(['int32', 'int64', 'float', 'double']):
-        for L in ([1, 3] if q else [0, 1, 2, 3, 4]):
-            o.append(dec('dict-%s' % nm, 9, L, ['src/encoding/dictionary.c'] + ENC, ['-DDTYPE=%d' % dt, '-DCAP=4', '-DDN=2'], 'dictionary of 0..2 symbolic entries, output count 0..4; indices = bit-width byte + hybrid runs', timeout=600))
+        for L in ([1, 3, 6] if q else [0, 1, 2, 3, 4, 6, 7]):
+            o.append(dec('dict-%s' % nm, 9, L, ['src/encoding/dictionary.c'] + ENC, ['-DDTYPE=%d' % dt, '-DCAP=%d' % (4 if L < 6 else 2), '-DDN=2'], 'dictionary of 0..2 symbolic entries, output count 0..4; indices = bit-width byte + hybrid runs', timeout=600))
     for b, nm in enumerate(['float', 'double', 'generic']):
         for L in ([0, 8] if q else [0, 4, 8, 12, 16]):
             o.append(dec('bss-%s' % nm, 10, L, [], ['-DBSS=%d' % b, '-DCAP=3'], 'count 0..3 (generic: width 0..5) symbolic; scalar dispatch (cpuid hook reports no SIMD)', timeout=600, all_lib=True))
